@@ -258,7 +258,8 @@ impl CompiledItem {
                 if arguments.len() >= 1 {
                     for arg in &arguments[..] {
                         args.push(' ');
-                        let replaced = arg.replace('"', "\\\"");
+                        // backslashes first, then what the reader (`split_string`) decodes again.
+                        let replaced = arg.replace('\\', "\\\\").replace('"', "\\\"");
                         let arg = fix_arg_if_needed(&replaced)?;
                         args.push_str(arg.as_ref());
                     }
